@@ -183,15 +183,29 @@ def gen_cases(ctx, quick):
     return out
 
 
+def reaches_task(c):
+    """python mirror of Spec reaches_task (+ the try_from the harness applies to non-literal read ranges): the call is queued and
+    the task takes a transaction id for it"""
+    f, k, u, s, n, v, lit, style = c
+    if k in (5, 6):
+        return True
+    if n == 0 or n > 65535 or s + n > 65536:
+        return False
+    return k in (15, 16) or n <= LIMIT[k]
+
+
 def evaluate(ctx, cases):
-    """-> list of (impl, model, spec, tx) per case; one harness process (the MBAP tx id advances)"""
+    """-> list of (impl, model, spec, tx) per case; one harness process: the cases of one framing form ONE session, so the
+    transaction id handed to model and Spec is the number of earlier cases of that framing that reach the task (C03_session_wire)"""
     ctx.log(f'{len(cases)} cases: running the implementation')
     impl = ctx.harness('cenc', [line(c) for c in cases])
     ctx.log('evaluating model and Spec in Coq')
     txs = []
+    count = {'T': 0, 'R': 0}
     for c, i in zip(cases, impl):
-        wire = i.split(' ')[-1]
-        txs.append(int(wire[:4], 16) if c[0] == 'T' and len(wire) >= 4 and wire != '-' and '+' not in wire else 0)
+        txs.append(count[c[0]] % 65536 if c[0] == 'T' else 0)
+        if reaches_task(c):
+            count[c[0]] += 1
     # spread the expensive cases (long value vectors) evenly over the coqc shards
     order = list(range(len(cases)))
     order.sort(key=lambda i: (i * 7919) % 104729)
@@ -296,6 +310,56 @@ def evaluate_each(ctx, cs):
     return [(i, b.split('|')[0], b.split('|')[0] if b.split('|')[1] == '=' else b.split('|')[1], tx) for i, b, tx in zip(impl, both, txs)]
 
 
+def session_family(ctx, nseq, length):
+    """whole sessions: a sequence of calls through any mix of the three APIs in a fresh process; the concatenated wire log vs
+    Model session_wire and Spec ref_session_wire evaluated in Coq on the whole sequence (C03_session_wire)"""
+    r = ctx.rng
+    seqs = []
+    for q in range(nseq):
+        f = 'T' if q % 4 != 3 else 'R'
+        seq = []
+        for _ in range(length):
+            k = r.choice([1, 2, 3, 4, 5, 6, 15, 15, 16, 16])
+            u = r.choice(UNITS)
+            style = r.choice([0, 0, 1, 2])
+            if k in (5, 6):
+                seq.append(norm((f, k, u, r.randrange(65536), r.randrange(2) if k == 5 else r.randrange(65536), None, 0, style)))
+                continue
+            lim = LIMIT[k]
+            n = r.choice([0, 1, 2, 9, lim - 1, lim, lim + 1, lim + 1, r.randrange(0, 40), r.randrange(0, 300)])
+            fit = min(65535, max(0, 65536 - n))
+            s0 = r.choice([0, r.randrange(0, fit + 1), fit, min(65535, fit + 1)])
+            seq.append(norm((f, k, u, s0, n, ('s', r.choice([0, 1, r.randrange(2, 2**31)])) if k in (15, 16) else None, 1, style)))
+        seqs.append(seq)
+    wires = []
+    for seq in seqs:
+        out = ctx.harness('cenc', [line(c) for c in seq])            # fresh process: transaction ids start at 0
+        wires.append('+'.join(o.split(' ')[1] for o in out if o.split(' ')[1] != '-'))
+
+    def coq_call(c):
+        f, k, u, s0, n, v, lit, style = c
+        vs = 'Seed 0 0' if v is None else f'Seed {v[1]} {n}'
+        return f'({style}, {k}, {u}, {s0}, {n}, {vs})'
+    both = ctx.coq_eval(REQS, 'run_session_case', [f'({vlib.coq_bool(seq[0][0] == "T")}, [{"; ".join(coq_call(c) for c in seq)}])' for seq in seqs],
+                        case_type='session_case', per_shard=2)
+    bad = 0
+    for seq, w, b in zip(seqs, wires, both):
+        model, spec = b.split('|')
+        spec = model if spec == '=' else spec
+        if w != spec or w != model:
+            bad += 1
+            if bad == 1:
+                # first differing frame
+                fw, fs = w.split('+'), spec.split('+')
+                ix = next((i for i in range(min(len(fw), len(fs))) if fw[i] != fs[i]), min(len(fw), len(fs)))
+                ctx.violation('client.session.wire-log-differs-from-the-spec' if w != spec else 'model-differs-from-impl',
+                              f'session of {len(seq)} calls over {"TCP" if seq[0][0] == "T" else "RTU"}: frame #{ix} on the wire is `{(fw + ["(none)"])[ix][:60]}` '
+                              f'but ref_session_wire says `{(fs + ["(none)"])[ix][:60]}` ({len(fw)} vs {len(fs)} frames)',
+                              {'session': [jcase(c) for c in seq], 'impl': w[:2000], 'spec': spec[:2000]}, no_failing_input=(w == spec))
+    ctx.oblige('correspondence:session-wire-log-vs-model-and-spec', bad == 0, f'{bad} of {len(seqs)} sessions')
+    return sum(len(x) for x in seqs)
+
+
 def run(ctx):
     ctx.translate(['Consts.v', 'ClientTables.v'])
     models_ok = ctx.build_models(REQS + ['Spec.ClientCodecSpec'])
@@ -384,13 +448,17 @@ def run(ctx):
         missing = [n for n in need if classes.get(n, 0) < 3]
         ctx.oblige('generator-reaches-expected-classes', not missing and max_len['T'] == 259 and max_len['R'] == 255,
                    f'missing={missing} max frame lengths={max_len}')
+    n_sess = 0
+    if not ctx.replay:
+        n_sess = session_family(ctx, 8 if quick else 64, 60 if quick else 300)
+        classes['session-calls'] = n_sess
     classes['max_frame_len_tcp'] = max_len['T']
     classes['max_frame_len_rtu'] = max_len['R']
     ctx.coverage.update({
-        'evaluations': len(cases),
+        'evaluations': len(cases) + n_sess,
         'distinct_nontrivial': len({c for c in cases if c[1] in (5, 6) or c[4] > 0}),
         'rule': 'cases (framing, kind, unit, start, count|value, values, range-is-struct-literal, submit API: Channel / CallbackSession / FfiChannel) from a seeded PRNG: F1/F10 corpus, boundary quantities x start edges x 8 kinds x 2 framings, explicit value lists, random mixture'
-                + ('' if quick else ', exhaustive count sweep 0..2100') + '; non-trivial = non-empty request; distinct by value. Each case runs the real Channel API + ClientLoop over the in-memory wire and is compared with model and Spec evaluated in Coq',
+                + ('' if quick else ', exhaustive count sweep 0..2100') + '; non-trivial = non-empty request; distinct by value. Transaction ids given to model and Spec are those of the Spec (number of earlier calls of the session that reach the task), not the observed ones; plus whole-session wire logs (mixed APIs) vs session_wire / ref_session_wire. Each case runs the real Channel API + ClientLoop over the in-memory wire and is compared with model and Spec evaluated in Coq',
         'samples': [[line(c), r[0][:80]] for c, r in list(zip(cases, results))[:8]],
         'input_classes': classes,
         'exhaustive': False,
